@@ -75,7 +75,7 @@ static int cx_id2(spif_obj_t o)
     if (!SPIF_OBJ_IS_STR(o)) return CX_BADID;
     return cx_lab2_id((const char *) SPIF_STR_STR(SPIF_STR(o)));
 }
-static void cx_del_str(spif_obj_t o) { if (!SPIF_OBJ_ISNULL(o)) spif_str_del(SPIF_STR(o)); }
+static void cx_del_str(spif_obj_t o) { if (!SPIF_OBJ_ISNULL(o)) SPIF_OBJ_DEL(o); }       /* through the class: a label may be an object of a class derived from str */
 
 /* general text labels (maps): "<c>NNN" */
 static spif_obj_t cx_newt(char c, int id)
@@ -88,7 +88,7 @@ static int cx_idt(char c, spif_obj_t o)
 {
     const char *s;
     if (SPIF_OBJ_ISNULL(o)) return CX_NULLID;
-    if (!SPIF_OBJ_IS_STR(o)) return CX_BADID;
+    if (!SPIF_OBJ_IS_STR(o) && !SPIF_OBJ_IS_URL(o)) return CX_BADID;        /* url is-a str: its text is the label */
     s = (const char *) SPIF_STR_STR(SPIF_STR(o));
     if (!s || strlen(s) != 4 || s[0] != c || s[1] < '0' || s[1] > '9' || s[2] < '0' || s[2] > '9' || s[3] < '0' || s[3] > '9') return CX_BADID;
     return (s[1] - '0') * 100 + (s[2] - '0') * 10 + (s[3] - '0');
@@ -193,9 +193,25 @@ static void cx_iter_check(const char *op, int k, spif_iterator_t it, const int *
 }
 
 /* to_array result: n pointers in a heap block the caller owns */
+/* to_array of an empty container: whether that is an allocated array of no elements or NULL is the library's choice, but the three
+ * classes are one interface and must make the same one (checked by cx_toarray_empty_agree after all three were read back) */
+static int cx_ta_empty[3];       /* per class: 0 not seen, 1 a block, 2 NULL */
+static void cx_toarray_empty_agree(const char *op)
+{
+    int seen = 0, first = 0, differ = 0;
+    for (int q = 0; q < 3; q++) if (cx_ta_empty[q]) { if (!seen) first = cx_ta_empty[q]; else if (cx_ta_empty[q] != first) differ = 1; seen++; }
+    int a = cx_ta_empty[0], b = cx_ta_empty[1], c = cx_ta_empty[2];
+    cx_ta_empty[0] = cx_ta_empty[1] = cx_ta_empty[2] = 0;
+    if (seen == 3) {
+        vh_count("to_array_of_empty_containers_compared_across_classes", 1);
+        if (differ) CX_FAIL(op, 1, "to_array-empty-agreement", "to_array of an empty container: array class %s, linked_list %s, dlinked_list %s",
+                            a == 2 ? "NULL" : "a block", b == 2 ? "NULL" : "a block", c == 2 ? "NULL" : "a block");
+    }
+}
 static void cx_toarray_check(const char *op, int k, spif_obj_t *arr, const int *m, int n, cx_idof_t idof, const char *(*show)(int))
 {
     int j;
+    if (n == 0 && k >= 0 && k < 3) cx_ta_empty[k] = arr ? 1 : 2;
     if (n > 0) {
         CX_CHECK(arr != NULL, op, k, "to_array-null", "to_array returned NULL for %d elements", n);
         if (vh_have_asan()) {
